@@ -27,7 +27,8 @@ Inductive skind :=
 | KPlain | KHtml
 | KAttach (filename ctype : bytes)
 | KInline (cid ctype : bytes)
-| KCustom (ctype : bytes) (enc : option cte).
+| KCustom (ctype : bytes) (enc : option cte)
+| KPre (ctype : bytes) (hdr : option cte) (benc : option cte).   (* a pre-encoded Body handed to the builder *)
 Inductive mkind := MMixed | MAlternative | MRelated | MEncrypted (protocol : bytes) | MSigned (protocol micalg : bytes).
 Inductive pdesc :=
 | DSingle (k : skind) (is_string : bool) (content : bytes)
@@ -71,6 +72,12 @@ Definition single_headers (k : skind) : res unit headers :=
     | Err x => Err x | Panic => Panic
     end
   | KCustom ct None => set_text N_CT ct []
+  | KPre ct (Some e) _ =>
+    match set_text N_CT ct [] with
+    | Ok h1 => set_text N_CTE (cte_name e) h1
+    | Err x => Err x | Panic => Panic
+    end
+  | KPre ct None _ => set_text N_CT ct []
   end.
 
 Definition requested (k : skind) : option cte := match k with KCustom _ (Some e) => Some e | _ => None end.
@@ -82,10 +89,18 @@ Definition pairs (hs : headers) : list (bytes * bytes) := map (fun h => (h_name 
 Definition build_single (k : skind) (is_string : bool) (content : bytes) : res unit part :=
   match single_headers k with
   | Ok hs =>
-    let r := match requested k with
-             | Some e => match body_new_with_encoding is_string content e with
-                         | Ok x => Ok x | Err _ => Panic | Panic => Panic end
-             | None => Ok (body_new is_string content)
+    let r := match k with
+             | KPre _ _ (Some e) =>
+               (* Body::new_with_encoding by the caller; IntoBody for Body ignores the builder's encoding *)
+               match body_new_with_encoding is_string content e with
+               | Ok x => Ok x | Err _ => Err tt | Panic => Panic end
+             | KPre _ _ None => Ok (body_new is_string content)
+             | _ =>
+               match requested k with
+               | Some e => match body_new_with_encoding is_string content e with
+                           | Ok x => Ok x | Err _ => Panic | Panic => Panic end
+               | None => Ok (body_new is_string content)
+               end
              end in
     match r with
     | Ok (body, e) =>
